@@ -81,7 +81,7 @@ func c08loadDoc(base *Scn, doc string, env map[string]string, opts ...func(*load
 }
 
 func (c08) Run(c *core.Ctx) {
-	sch, err := schemagen.Load("/repo/schema/compose-spec.json")
+	sch, err := schemagen.Load(RepoDir() + "/schema/compose-spec.json")
 	if err != nil {
 		c.Note("cannot read the schema: " + err.Error())
 		return
